@@ -200,7 +200,40 @@ def match_D22(v, trace):
     return True   # AdoptedCounts after a restart: the pre-crash instance had the wrong view of that order
 
 
+def match_D26(v, trace):
+    """BETDAQ: an UPDATING order was reset by process_betdaq_current_order on a new sequence number (first poll after the
+    placement, a fill) while its update request was still queued / on the wire; explained for that order as long as a
+    request for it stays outstanding"""
+    if v["prop"] != "C03" or v["name"] not in ("InFlightStatusWhileOutstanding", "OneInFlight", "InFlightRejected"):
+        return False
+    d = v["detail"]
+    if v["name"] == "InFlightRejected":
+        orders = [d[1]]
+    elif v["name"] == "OneInFlight":
+        orders = list(_set(d) or [])
+    else:
+        orders = [x[1] for x in (_set(d) or [])]
+    if not orders:
+        return False
+    steps = trace["steps"]
+
+    def holds(st, o, kind=None):
+        return any(o in p["orders"] and (kind is None or p["kind"] == kind) for p in st.get("pool", []))
+
+    def active_at(o, upto):
+        active = False
+        for i in range(min(upto, len(steps))):
+            s = steps[i]
+            if s["ev"] == "proc" and holds(s["st"], o, "UPDATE") and any(t[0] == o and t[1] == "UPDATING" and t[2] == "EXECUTABLE" and t[3] == "process_betdaq_current_order" for t in s.get("trans", [])):
+                active = True
+            elif active and not holds(s["st"], o):
+                active = False
+        return active
+    return all(active_at(o, v["step"]) or active_at(o, v["step"] - 1) for o in orders)
+
+
 MATCHERS = {
+    "D26": match_D26,
     "D13": match_D13,
     "D21": match_D21,
     "D8": match_D8,
